@@ -168,11 +168,15 @@ func c20FileErrCode(err error) int64 {
 type c20Mon struct {
 	msgs []string
 	key  string
+	// at is the index of the operation in progress (histories); failedAt the
+	// one of the first failure.
+	at, failedAt int
 }
 
 func (m *c20Mon) fail(key, format string, a ...any) {
 	if m.key == "" {
 		m.key = key
+		m.failedAt = m.at
 	}
 	if len(m.msgs) < 4 {
 		m.msgs = append(m.msgs, fmt.Sprintf(format, a...))
@@ -271,6 +275,18 @@ func c20FileCase(t *testing.T, out *vfOut, r *vfRand, dir string, kind string, l
 	}
 	if size > 2*maxEntrySize {
 		cls["file-larger-than-probe-window"] = true
+	}
+	switch n {
+	case 0:
+		cls["empty-file"] = true
+	case 1:
+		cls["one-line"] = true
+	}
+	for _, l := range lines {
+		if len(l.text) >= maxEntrySize-3 {
+			cls["lines-at-limit"] = true
+			break
+		}
 	}
 
 	// 1. full reverse read
@@ -454,6 +470,15 @@ func c20ReaderCase(t *testing.T, out *vfOut, r *vfRand, dir string, kind string,
 		}
 	}
 	n := len(all)
+	if len(files) == 0 {
+		cls["reader-no-files"] = true
+	}
+	for _, l := range all {
+		if len(l.text) >= maxEntrySize-3 {
+			cls["lines-at-limit"] = true
+			break
+		}
+	}
 	curPos := func() (int64, int64) {
 		if rd.currentFile < 0 || rd.currentFile >= len(rd.qFiles) {
 			return int64(rd.currentFile), 0
@@ -639,6 +664,44 @@ func TestVerifC20(t *testing.T) {
 		c20ReaderCase(t, out, pr, dir, "empty-newest", [][]c20Line{f0, nil}, 10, nil)
 		c20ReaderCase(t, out, pr, dir, "empty-oldest", [][]c20Line{nil, f1}, 10, nil)
 		c20ReaderCase(t, out, pr, dir, "adjacent", [][]c20Line{f0[:3], f0[3:]}, 100, nil)
+		// reader-reuse histories over 0, 1, 2 and 3 files (long, so that every
+		// kind of seek meets every kind of reader state)
+		// constructed: a failed seek of each absent class in the middle of a
+		// run, in the newest and in the rotated file (f0: records 0-6, f1: 7-15)
+		var sf0, sf1 []c20Line
+		for i := 0; i < 16; i++ {
+			l := c20MakeLine(i, ts0+1000*int64(i+1), 60+17*i)
+			if i < 7 {
+				sf0 = append(sf0, l)
+			} else {
+				sf1 = append(sf1, l)
+			}
+		}
+		two := [][]c20Line{sf0, sf1}
+		for i, sc := range [][]c20Step{
+			{c20SStart(), c20SRead(2), c20SSeek(-1), c20SReadAll()},
+			{c20SStart(), c20SRead(2), c20SSeek(-10 - 9), c20SReadAll()},
+			{c20SStart(), c20SRead(11), c20SSeek(-10 - 12), c20SReadAll()},
+			{c20SStart(), c20SRead(11), c20SSeek(-10 - 2), c20SReadAll()},
+			{c20SStart(), c20SRead(11), c20SSeek(-1), c20SReadAll()},
+			{c20SSeek(3), c20SRead(1), c20SSeek(-1), c20SSeek(-10 - 1), c20SSeek(-10 - 8), c20SReadAll(), c20SRead(1), c20SSeek(-1), c20SRead(1)},
+			{c20SStart(), c20SReadAll(), c20SSeek(-10 - 10), c20SRead(2), c20SSeek(-2), c20SRead(3), c20SSeek(-10 - 6), c20SReadAll()},
+			{c20SSeek(-1), c20SRead(3), c20SSeek(12), c20SRead(2), c20SSeek(-10 - 3), c20SReadAll()},
+		} {
+			c20HistoryCase(t, out, pr, dir, "scripted-"+strconv.Itoa(i), two, 0, sc, nil)
+		}
+		c20HistoryCase(t, out, pr, dir, "scripted-one-file", [][]c20Line{sf1}, 0,
+			[]c20Step{c20SStart(), c20SRead(3), c20SSeek(-1), c20SRead(2), c20SSeek(-10 - 1), c20SReadAll()}, nil)
+		// long random ones over 0, 1, 2 and 3 files (so that every kind of seek
+		// meets every kind of reader state)
+		c20HistoryCase(t, out, pr, dir, "no-files", nil, 12, nil, nil)
+		c20HistoryCase(t, out, pr, dir, "one-file", [][]c20Line{f1}, 60, nil, nil)
+		c20HistoryCase(t, out, pr, dir, "two-files", [][]c20Line{f0, f1}, 120, nil, nil)
+		c20HistoryCase(t, out, pr, dir, "two-files-gaps", two, 120, nil, nil)
+		c20HistoryCase(t, out, pr, dir, "two-files-b", [][]c20Line{f0[:2], f1[:3]}, 120, nil, nil)
+		c20HistoryCase(t, out, pr, dir, "three-files", [][]c20Line{f0[:4], f0[4:], f1}, 120, nil, nil)
+		c20HistoryCase(t, out, pr, dir, "empty-middle", [][]c20Line{f0, nil, f1}, 60, nil, nil)
+		c20HistoryCase(t, out, pr, dir, "one-line-files", [][]c20Line{f0[:1], f0[1:2], f1[:1]}, 80, nil, nil)
 	}
 
 	// ---- random cases
@@ -686,6 +749,9 @@ func TestVerifC20(t *testing.T) {
 		if r.Chance(3, 4) {
 			nf = 2
 		}
+		if r.Chance(1, 20) {
+			nf = 0
+		}
 		var files [][]c20Line
 		ts := ts0
 		idx := 0
@@ -706,5 +772,14 @@ func TestVerifC20(t *testing.T) {
 			files = append(files, f)
 		}
 		c20ReaderCase(t, out, r, dir, "random", files, 30, nil)
+	}
+
+	// ---- reader-reuse histories (zz_verif_C20hist_test.go)
+	nHist := out.Scale(150, 1200)
+	for i := 0; i < nHist; i++ {
+		r := rnd.Fork(uint64(3000000 + i))
+		nf := vfPick(r, []int{0, 1, 1, 2, 2, 2, 2, 3})
+		files := c20GenFiles(r, nf, ts0+r.Range(0, 1000000), 9, 14)
+		c20HistoryCase(t, out, r, dir, "random", files, int(r.Range(6, 32)), nil, nil)
 	}
 }
